@@ -189,7 +189,14 @@ def run(res, tier, seed):
         bid = rng.choice(["B", "k9", "N1"])
         B = lambda: {"k": "AtLeast", "v": rng.choice([1, (k + 1) // 2, k]), "s": None, "ch": [dict(c) for c in kids], "id": bid}
         b1 = B(); b2 = dict(b1, ch=[dict(c) for c in kids])
-        neg = {"k": "Imply", "ch": [b1, g.leaf()], "id": None} if rng.random() < 0.6 else {"k": "Not", "ch": [b1], "id": None}
+        if rng.random() < 0.5 and k >= 2:
+            # or: two definitions of B that print alike - children "u,v" (one leaf whose id contains a comma) and "u", "v"
+            u, v2 = kids[0]["id"], kids[1]["id"]
+            b2 = dict(b1, ch=[{"k": "str", "id": u + "," + v2}] + [dict(c) for c in kids[2:]])
+            neg = {"k": rng.choice(["Any", "All"]), "ch": [b1, g.leaf()], "id": None}
+            res.count("comma_twin_built")
+        else:
+            neg = {"k": "Imply", "ch": [b1, g.leaf()], "id": None} if rng.random() < 0.6 else {"k": "Not", "ch": [b1], "id": None}
         ast = {"k": rng.choice(["All", "Any"]), "ch": [neg, {"k": rng.choice(["Any", "All"]), "ch": [b2, g.leaf()], "id": None}], "id": rng.choice(["T", None])}
         try:
             m = build(ast)
@@ -207,7 +214,12 @@ def run(res, tier, seed):
             res.violation("oracle", f"{bad['problem']} on {m!r} (accepted by errors(); a named sub-proposition occurs next to its own negation)", bad)
     # wide stream: leaves far beyond the 16-bit default (big-M sums beyond 32 bits); too large to enumerate, so only
     # completeness (no satisfying configuration is lost) and the correspondence apply
-    for ast, m in gen_valid(rng, 60 if tier == "quick" else 600, res, depth_max=3, want=lambda m: plain(m), big=0.6, huge=0.7, int_leaves=0.7):
+    def beyond32(m):
+        return max([abs(v) for r in poly_obs(m, True)[1] for v in r] + [0]) >= 2 ** 31
+    wide = gen_valid(rng, 60 if tier == "quick" else 600, res, depth_max=3, want=lambda m: plain(m), big=0.6, huge=0.7, int_leaves=0.7)
+    # ... of which a fixed number must really have a matrix entry beyond 32 bits (two or more huge leaves under one node)
+    wide += gen_valid(rng, 25 if tier == "quick" else 250, res, depth_max=2, tries_factor=40, want=lambda m: plain(m) and beyond32(m), big=0.9, huge=0.9, int_leaves=0.9)
+    for ast, m in wide:
         res.count("wide_stream")
         bad = complete_model(res, ast, m, rng, 12 if tier == "quick" else 30, 0)
         if not bad and solver_safe(m):
